@@ -526,23 +526,43 @@ func (node *mastNode) iter(ctx context.Context, f func(interface{}, interface{})
 	return nil
 }
 
-// seekIter first seeks to idx key, and then starts the iteration
-func (node *mastNode) seekIter(ctx context.Context, idx int, f func(interface{}, interface{}) error, m *Mast) error {
-	if idx >= len(node.Key) {
-		return nil
-	}
-	err := f(node.Key[idx], node.Value[idx])
+// seekIter invokes f, in order, for the entries under node whose keys are not smaller than k
+func (node *mastNode) seekIter(ctx context.Context, k interface{}, f func(interface{}, interface{}) error, m *Mast) error {
+	var err error
+	cmp := -1
+	idx := sort.Search(len(node.Key), func(i int) bool {
+		if err != nil {
+			return true
+		}
+		cmp, err = m.keyOrder(k, node.Key[i])
+		if err != nil {
+			err = fmt.Errorf("keyCompare: %w", err)
+			return true
+		}
+		return cmp <= 0
+	})
 	if err != nil {
 		return err
 	}
-	for i := idx + 1; i < len(node.Link); i++ {
+	if idx < len(node.Key) {
+		cmp, err = m.keyOrder(k, node.Key[idx])
+		if err != nil {
+			return fmt.Errorf("keyCompare: %w", err)
+		}
+	}
+	for i := idx; i < len(node.Link); i++ {
 		link := node.Link[i]
-		if link != nil {
+		// the subtree left of an exact match holds only smaller keys
+		if link != nil && (i > idx || idx == len(node.Key) || cmp != 0) {
 			child, err := m.load(ctx, link)
 			if err != nil {
 				return err
 			}
-			err = child.iter(ctx, f, m)
+			if i == idx {
+				err = child.seekIter(ctx, k, f, m)
+			} else {
+				err = child.iter(ctx, f, m)
+			}
 			if err != nil {
 				return err
 			}
